@@ -2629,3 +2629,84 @@ for _k in ("regular", "dir", "symlink", "special"):
 for _k in ("regular", "dir", "symlink"):
     for (_a, _b) in ((1, 1), (1, 3), (2, 2), (2, 4), (2, 5), (3, 5)):
         HARNESSES["c12_link_then_%s_%d_%d" % (_k, _a, _b)] = (lambda k, a, b: (lambda ctx: c12_extract(ctx, 0, [("symlink", a), (k, b)], alphabet=b"/.ab")))(_k, _a, _b)
+
+
+# ---------------------------------------------------------------------------------------------------------
+# C05: the scriptlet getters read the three tags that carry their scriptlet's NAME (text, flags, interpreter), whatever else the header holds
+# ---------------------------------------------------------------------------------------------------------
+SCRIPTLET_GETTERS = {"PREIN": "get_pre_install_script", "POSTIN": "get_post_install_script", "PREUN": "get_pre_uninstall_script", "POSTUN": "get_post_uninstall_script",
+                     "PRETRANS": "get_pre_trans_script", "POSTTRANS": "get_post_trans_script", "PREUNTRANS": "get_pre_untrans_script", "POSTUNTRANS": "get_post_untrans_script"}
+
+
+def c05_scriptlets(ctx, present):
+    """header with the <X>, <X>FLAGS, <X>PROG entries of the scriptlets in `present` (symbolic text, flags, two-word interpreter each); every getter of a
+    present scriptlet returns exactly its own three values; tags are taken by NAME from the crate's tag enum, not from the getters' tag triples"""
+    ex = Exec(ctx.funcs, intrinsics.I, max_steps=2000000)
+    ctx.stats = ex.stats
+    ctx.bounds = "scriptlet getters on a header holding text (2 symbolic characters), flags (any u32) and a two-word interpreter for: %s" % ", ".join(present)
+
+    def setup(e):
+        return {x: dict(text=sym_bytes(e, x + "t", 2, 0x21, 0x7e), flags=z3.BitVec(x + "_f", 32), prog=[sym_bytes(e, x + "p%d" % i, 1, 0x21, 0x7e) for i in range(2)]) for x in present}
+
+    def body(e, inp):
+        from rpmvals import metadata
+        ents = []
+        for x in present:
+            ents.append(index_entry(tag("RPMTAG_" + x), index_data("StringTag", string(inp[x]["text"]))))
+            ents.append(index_entry(tag("RPMTAG_%sFLAGS" % x), index_data("Int32", VecV([Int(inp[x]["flags"], "u32")]))))
+            ents.append(index_entry(tag("RPMTAG_%sPROG" % x), index_data("StringArray", VecV([string(p) for p in inp[x]["prog"]]))))
+        m = metadata(header([], []), header(ents, []))
+        return {x: e.call_fn(ctx.impl_fn(SCRIPTLET_GETTERS[x], None, "PackageMetadata"), [Ref(Cell(m))]) for x in present}
+
+    def on_path(e, inp, out):
+        k, v = out
+        if k != "return":
+            ctx.fail("a scriptlet getter panics: %s" % (v,), "PackageMetadata::get_*_script", kind="c05scr", present=list(present))
+            return
+        ctx.cover("getters return", True)
+        for x in present:
+            g = v[x]
+            bad = None
+            if g.variant != "Ok":
+                bad = "returns an error"
+            else:
+                sc = g.fields[0]
+                eqs = lambda a, b: len(intrinsics.as_str(e, a).bytes()) == len(b) and not e._check(z3.Not(z3.And([p == q for p, q in zip(intrinsics.as_str(e, a).bytes(), b)])))  # noqa: E731
+                if not eqs(sc.fields[0], inp[x]["text"]):
+                    bad = "returns another script text"
+                elif sc.fields[1].variant != "Some" or e._check(sc.fields[1].fields[0].fields[0].e != inp[x]["flags"]):
+                    bad = "returns other flags"
+                elif sc.fields[2].variant != "Some" or len(sc.fields[2].fields[0].items) != 2 or not all(eqs(a, b) for a, b in zip(sc.fields[2].fields[0].items, inp[x]["prog"])):
+                    bad = "returns another interpreter"
+            if bad:
+                ctx.fail("%s() %s than the one recorded under RPMTAG_%s / %sFLAGS / %sPROG" % (SCRIPTLET_GETTERS[x], bad, x, x, x) if "another" in bad or "other" in bad
+                         else "%s() %s although RPMTAG_%s is present" % (SCRIPTLET_GETTERS[x], bad, x), "PackageMetadata::" + SCRIPTLET_GETTERS[x], kind="c05scr", present=list(present), which=x)
+                return
+    ex.run_all(setup, body, on_path)
+
+
+def replay_scriptlets(ctx, fl):
+    import struct
+    import rpmbytes as RB
+    present = fl.get("present") or list(SCRIPTLET_GETTERS)
+    ent, st, exp = [], b"", {}
+    for i, x in enumerate(present):
+        text, flags, prog = b"t%d" % i, 0x80000000 | (i + 1), [b"p%d" % i, b"q%d" % i]
+        ent.append((tag("RPMTAG_" + x), "StringTag", len(st), 1))
+        st += text + b"\0"
+        st += b"\0" * ((4 - len(st) % 4) % 4)
+        ent.append((tag("RPMTAG_%sFLAGS" % x), "Int32", len(st), 1))
+        st += struct.pack(">I", flags)
+        ent.append((tag("RPMTAG_%sPROG" % x), "StringArray", len(st), 2))
+        st += b"".join(p_ + b"\0" for p_ in prog)
+        exp[x] = "%s:%x:%s" % (text.hex(), flags, ",".join(p_.hex() for p_ in prog))
+    meta = RB.lead() + RB.sig_header([], b"") + RB.header(sorted(ent), st)
+    ans = ctx.native.ask("scriptlet_getters", meta.hex())
+    want = " ".join("%s=%s" % (x, exp[x]) for x in SCRIPTLET_GETTERS if x in exp)
+    return ans != "ok " + want, "real crate: scriptlet getters on a hand-encoded header (%s present) -> %s (expected %s)" % (", ".join(present), ans[:200], want[:200])
+
+
+HARNESSES["c05_scriptlets_all"] = lambda ctx: c05_scriptlets(ctx, list(SCRIPTLET_GETTERS))
+for _x in SCRIPTLET_GETTERS:
+    HARNESSES["c05_scriptlet_" + _x.lower()] = (lambda x: (lambda ctx: c05_scriptlets(ctx, [x])))(_x)
+REPLAYERS["c05"] = (lambda prev: (lambda ctx, fl: replay_scriptlets(ctx, fl) if fl.get("kind") == "c05scr" else prev(ctx, fl)))(REPLAYERS["c05"])
